@@ -148,8 +148,9 @@ def panel_case(draw, models=('plate', 'plate_w', 'cpanel', 'kpanel'), mmax=5, mm
     if sub_interval:
         kind = draw(st.sampled_from(['none', 'none', 'sub', 'tiling']))
         if kind == 'sub':
-            y1 = draw(gen.fl(0., 0.95)) * b
-            y2 = y1 + draw(gen.fl(0.02, 1.)) * (b - y1)
+            # strips that start exactly at the edge y = 0 (y1 = 0.0) or end exactly at y = b are as common as interior ones
+            y1 = draw(st.one_of(st.just(0.), gen.fl(0., 0.95), gen.fl(0., 0.95))) * b
+            y2 = y1 + draw(st.one_of(st.just(1.), gen.fl(0.02, 1.), gen.fl(0.02, 1.))) * (b - y1)
             case['y'] = [y1, min(y2, b)]
         elif kind == 'tiling':
             k = draw(st.integers(2, 5))
